@@ -206,6 +206,9 @@ def families(tier):
     M = 'vf.props.c15'
     fams = [('regular-deg%d' % d, M, 'fam_regular', {'deg': d}) for d in (2, 3)]
     fams.append(('line', M, 'fam_line', {}))
+    # Arc: unit_tangent = derivative/|derivative| and curvature use derivative(t,1), derivative(t,2): the derivative identities
+    for rot in ('0', 'p37', '90'):
+        fams.append(('arc-derivative-%s' % rot, 'vf.props.c04', 'fam_derivative', {'rot': rot}))
     for case in SINGULAR:
         heavy = case in ('cubic.t0.P0=P1', 'cubic.t1.P2=P3')
         if heavy:
